@@ -222,9 +222,9 @@ def _(tier, seed):
     saved = PS.PSBaseParser.BUFSIZ
     failures, evals, distinct = [], 0, 0
 
-    def run(data, bs, sep=b" "):
+    def run(data, bs, sep=b" ", after_id=b" "):
         PS.PSBaseParser.BUFSIZ = bs
-        c = b"BT /F1 12 Tf (A) Tj ET BI /W 1 /H 1 /BPC 8 /CS /G ID " + data + sep + b"EI BT /F1 12 Tf (B) Tj ET"
+        c = b"BT /F1 12 Tf (A) Tj ET BI /W 1 /H 1 /BPC 8 /CS /G ID" + after_id + data + sep + b"EI BT /F1 12 Tf (B) Tj ET"
         out = []
         def walk(o):
             if isinstance(o, layout.LTChar):
@@ -243,15 +243,17 @@ def _(tier, seed):
             for bs in bss:
                 # the separator before EI: a blank stays in the captured data, one end of line (LF, CR, CR LF) is syntax
                 for sep in (b" ", b"\n", b"\r", b"\r\n"):
+                  # the single white-space byte after ID (ISO 8.9.7): blank, LF, CR or TAB - the data starts right behind it, whatever its first byte is
+                  for after_id in ((b" ", b"\n", b"\r", b"\t") if (bs == 4096 and sep == b"\n") else (b" ",)):
                     evals += 1
                     try:
-                        got = run(data, bs, sep)
+                        got = run(data, bs, sep, after_id)
                     except Exception as e:  # noqa: BLE001
                         got = "%s: %s" % (type(e).__name__, e)
                     want = data + (b" " if sep == b" " else b"")
                     ok = isinstance(got, list) and [g for g in got if isinstance(g, str)] == ["A", "B"] and [g for g in got if isinstance(g, bytes)] == [want]
                     if not ok:
-                        failures.append(dict(data=data.hex(), separator=sep.hex(), bufsiz=bs, got=repr(got)[:200], want=repr(want)[:80]))
+                        failures.append(dict(data=data.hex(), separator=sep.hex(), after_ID=after_id.hex(), bufsiz=bs, got=repr(got)[:200], want=repr(want)[:80]))
                         return
         for n_ in range(0, Lmax + 1):
             for tup in itertools.product(alpha, repeat=n_):
@@ -418,3 +420,59 @@ c.ens("window-kept-or-replaced-by-the-next-non-empty-one", lambda self, old: If(
     And(eq(self.charpos, old.self.charpos), eq(self.bufpos, old.self.bufpos), eq(self.buf.n, old.self.buf.n), eq(self.buf.base, old.self.buf.base), eq(self.fp._pos, old.self.fp._pos)),
     And(eq(self.charpos, 0), eq(self.bufpos, old.self.fp._pos), eq(self.buf.base, old.self.fp._pos), lt(0, self.buf.n), le(self.buf.n, self.BUFSIZ),
         eq(self.buf.n, If(lt(old.self.fp._left, self.BUFSIZ), old.self.fp._left, self.BUFSIZ)), eq(self.fp._pos, old.self.fp._pos + self.buf.n))))
+
+
+# -- the ID keyword: the data starts exactly one byte after 'ID' (ISO 8.9.7: a single white-space character), what get_inline_data returns is the
+#    image's data unchanged, and an EI keyword is pushed behind the image so that do_EI runs -------------------------------------------------------
+class _IDParser(T.Sort):
+    def fresh(self, ctx, name):
+        LIT_ = real_module("pdfminer.psparser").LIT
+        o = SObj(pi.PDFContentParser, {"_calls": [], "_pushed": []}, name)
+        filt = ctx.choose(["none", "A85", "AHx"], "inline-filter")
+        objs = [LIT_("W"), 2, LIT_("H"), 1] + ([] if filt == "none" else [LIT_("F"), LIT_("ASCII85Decode" if filt == "A85" else "ASCIIHexDecode")])
+        o.f["_filter"] = filt
+        o.f["_data"] = SBytes(ctx.fresh_int("n"), lambda k: _D(to_z3_(k)), (0, 256), "bytes")
+        o.f["end_type"] = SymFn(lambda I, t, o=o: (o.f["_calls"].append(("end_type", t)), (0, list(objs)))[1], "end_type")
+
+        def gid(I, pos, target=b"EI", o=o):
+            o.f["_calls"].append(("get_inline_data", pos, target))
+            return (pos, o.f["_data"])
+        o.f["get_inline_data"] = SymFn(gid, "get_inline_data")
+        o.f["push"] = SymFn(lambda I, *xs, o=o: o.f["_pushed"].extend(xs), "push")
+        return o
+    def sample(self, rng):
+        return None
+    def from_model(self, ev, v):
+        return v.f["_filter"]
+
+
+c = contract("pdfminer.pdfinterp:PDFContentParser.do_keyword#ID", props=["C18"])
+c.modname, c.qualname = "pdfminer.pdfinterp", "PDFContentParser.do_keyword"
+c.param("self", _IDParser()).param("pos", T.Int(0)).param("token", T.Const("ID"))
+c.skip_cross = True
+c.wire = lambda bound, ghosts: bound.__setitem__("token", pi.PDFContentParser.KEYWORD_ID)
+c.mod("self._calls").mod("self._pushed")
+_pstream = stub("pdfminer.pdftypes:PDFStream.__init__", ["self", "attrs", "rawdata", "decipher"])
+_pstream.defaults["decipher"] = None
+c.stubs = {"pdfminer.pdftypes:PDFStream.__init__": _pstream}
+
+
+def _id_spec(self, pos, trace):
+    calls = self._calls
+    a85 = self._filter == "A85"
+    if [c_[0] for c_ in calls] != ["end_type", "get_inline_data"]:
+        return False
+    g = calls[1]
+    made = [b for n, b in trace if n.endswith("PDFStream.__init__")]
+    if len(made) != 1:
+        return False
+    raw = made[0]["rawdata"]
+    from pyvc.summaries import as_sbytes, sbytes_eq, sbytes_concat
+    want = self._data if not a85 else sbytes_concat(as_sbytes(self._data), as_sbytes(b"~>"))
+    pushed = self._pushed
+    ok_push = (len(pushed) == (1 if a85 else 2) and pushed[0][1].f is not None and (a85 or pushed[1][1] is pi.PDFContentParser.KEYWORD_EI))
+    return And(eq(g[1], pos + 3), g[2] == (b"~>" if a85 else b"EI"), sbytes_eq(as_sbytes(raw), as_sbytes(want)), ok_push,
+               sorted(made[0]["attrs"]) == (["F", "H", "W"] if self._filter != "none" else ["H", "W"]))
+
+
+c.ens("data-starts-one-byte-after-ID-and-is-passed-on-unchanged", _id_spec)
